@@ -238,6 +238,35 @@ def norm (ty : Ty) (oe : Bool) (o : Obj) : Obj :=
 /-- `o₁ ≈ o₂`: equal up to the zero-value / absent identification the tags prescribe -/
 def Equiv (ty : Ty) (o₁ o₂ : Obj) : Prop := norm ty false o₁ = norm ty false o₂
 
+/-! ## structural equality test (lawfulness: `Lemmas.CodecSchema.beqO_iff`) -/
+
+mutual
+/-- structural equality test on objects (`deriving DecidableEq` is not available for nested inductives) -/
+def beqO : Obj → Obj → Bool
+  | .bool a, .bool b => decide (a = b)
+  | .uint a, .uint b => decide (a = b)
+  | .int a, .int b => decide (a = b)
+  | .str a, .str b => decide (a = b)
+  | .bytesNil, .bytesNil => true
+  | .bytes a, .bytes b => decide (a = b)
+  | .fixed a, .fixed b => decide (a = b)
+  | .sliceNil, .sliceNil => true
+  | .slice a, .slice b => beqL a b
+  | .array a, .array b => beqL a b
+  | .mapNil, .mapNil => true
+  | .map a, .map b => beqM a b
+  | .struct a, .struct b => beqL a b
+  | _, _ => false
+def beqL : List Obj → List Obj → Bool
+  | [], [] => true
+  | a :: as, b :: bs => beqO a b && beqL as bs
+  | _, _ => false
+def beqM : List (Obj × Obj) → List (Obj × Obj) → Bool
+  | [], [] => true
+  | (a, a') :: as, (b, b') :: bs => beqO a b && (beqO a' b' && beqM as bs)
+  | _, _ => false
+end
+
 /-! ## decoder for schema-shaped trees (model of the generated `UnmarshalMsg`) -/
 
 def mapOpt {α β : Type} (f : α → Option β) : List α → Option (List β)
